@@ -33,6 +33,9 @@ def obligations(tier):
            bounds="list of 11 elements (indices 0..10), sibling keys 'sha' / 'sha-1' with nested value; selector: every str <= 8 chars"),
         CH("objects_embedded_and_extensions", H, "sel_objects", t, mode="E1s", functions=F + ["stix2.markings.add_markings", "stix2.parsing.parse"],
            bounds="3 real objects x (every path of their JSON + 10 near misses); validate, add/get/is_marked/set/remove/clear_markings on unmarked and marked objects, parse with granular_markings"),
+    ] + ([CH("every_class_every_path_p%d" % q, H, "sel_all_classes", t, mode="E1s", functions=F, env={"VERIF_PART": str(q)},
+              bounds="classes with index %% 8 == %d of 59 (enriched instance of every SDO/SRO/SCO class of both versions): every JSON path + systematic near misses" % q)
+          for q in range(8)] if tier == "thorough" else []) + [
         JOB("selector_regex_is_grammar", "props.j_regex", "job_selector", 120, engine="re2z3", functions=["stix2.properties.SelectorProperty.clean"],
             bounds="all strings (regex language inclusion, both directions)"),
     ]
